@@ -7,13 +7,24 @@ use dasp_sample::Sample;
 use hx_common::{big, f32f, f64f, unbig, unf32, unf64};
 use serde_json::Value;
 
-pub trait Fmt: Sample + Copy + 'static {
+pub trait Fmt: Sample + Copy + core::fmt::Debug + 'static {
     #[allow(dead_code)]
     const NAME: &'static str;
     /// native trace encoding
     fn enc(self) -> Value;
     /// stimulus value: native encoding, or {"d":[k,sh]} = k / 2^sh of full scale about equilibrium
     fn dec(v: &Value) -> Self;
+    /// the value times 2^sc (header field cfg.sc: the value region an execution is placed in).  Exact for the
+    /// float formats while the product stays normal; integer formats have one scale only (sc = 0) and return self.
+    fn scaled(self, _sc: i32) -> Self {
+        self
+    }
+}
+
+/// 2^sc as an f64 (sc within the normal range), written from the bit pattern: no arithmetic involved
+pub fn pow2(sc: i32) -> f64 {
+    assert!((-1022..=1023).contains(&sc), "scale out of range");
+    f64::from_bits(((1023 + sc) as u64) << 52)
 }
 
 fn dy(v: &Value) -> Option<(i64, u32)> {
@@ -66,6 +77,13 @@ impl Fmt for f32 {
             None => unf32(v),
         }
     }
+    fn scaled(self, sc: i32) -> Self {
+        if sc == 0 {
+            self
+        } else {
+            (self as f64 * pow2(sc)) as f32
+        }
+    }
 }
 impl Fmt for f64 {
     const NAME: &'static str = "f64";
@@ -76,6 +94,13 @@ impl Fmt for f64 {
         match dy(v) {
             Some((k, sh)) => k as f64 / (1u64 << sh) as f64,
             None => unf64(v),
+        }
+    }
+    fn scaled(self, sc: i32) -> Self {
+        if sc == 0 {
+            self
+        } else {
+            self * pow2(sc)
         }
     }
 }
@@ -89,6 +114,10 @@ pub fn dec_frame<S: Fmt, const N: usize>(v: &Value) -> [S; N] {
         i += 1;
         s
     })
+}
+/// a stimulus frame placed at the execution's scale (cfg.sc)
+pub fn dec_frame_sc<S: Fmt, const N: usize>(v: &Value, sc: i32) -> [S; N] {
+    dec_frame::<S, N>(v).map(|s| s.scaled(sc))
 }
 pub fn enc_frame<S: Fmt, const N: usize>(f: &[S; N]) -> Value {
     Value::Array(f.iter().map(|s| s.enc()).collect())
